@@ -7,11 +7,12 @@ from .repo import FunctionInfo, ClassInfo, ModuleInfo, ReConst, FuncRef, ClassRe
 from .values import (Sym, SStr, SInt, SBool, SBytes, SStrList, Obj, DictV, ListV, SetV, BoundMethod,
                      BuiltinMethod, NativeFn, OpaqueFn, Lambda, Namespace, TypeV, ExcClass, ExcValue,
                      is_strlike, is_intlike, is_boollike, zs, zi, zb, mk_str, mk_int, mk_bool)
-from .engine import (OutOfReach, PathEnd, ReturnSig, BreakSig, ContinueSig, PyRaise, Frame, exc_isa,
+from .engine import (ScopeInfeasible, OutOfReach, PathEnd, ReturnSig, BreakSig, ContinueSig, PyRaise, Frame, exc_isa,
                      EXC_PARENTS)
 from . import regex2smt
 from . import builtins_ as B
 from . import relib  # noqa: registers regex builtins
+from . import triespec  # noqa: registers trie spec builtins
 
 
 def has_yield(fn_node):
@@ -27,6 +28,7 @@ class Interp(object):
         self.ctx = ctx
         self.call_depth = 0
         self.loop_specs = {}      # (fn fullname, loop ordinal) -> LoopSpec
+        self.global_overrides = {}   # "module.name" -> value (abstract stand-ins for module-level objects)
         self.top_fn = None
 
     # ------------------------------------------------------------------ truthiness / equality
@@ -137,14 +139,22 @@ class Interp(object):
         if isinstance(cont, (frozenset, tuple, SetV, ListV)) or (isinstance(cont, dict) and not isinstance(cont, DictV)):
             if isinstance(cont, ListV):
                 if cont.prefix is not None:
-                    if is_strlike(item):
+                    k = B.pfx_kind(cont)
+                    if is_strlike(item) and k == "strs":
                         return B.z_or([z3.Contains(cont.prefix, z3.Unit(zs(item)))] + [self.eq(item, x) for x in cont.items])
+                    if is_strlike(item) and k == "chars":
+                        return B.z_or([z3.And(z3.Length(zs(item)) == 1, z3.Contains(cont.prefix, zs(item)))] + [self.eq(item, x) for x in cont.items])
+                    if item is None and k in ("strs", "chars"):
+                        return B.z_or([self.eq(item, x) for x in cont.items])
                     raise OutOfReach("membership in symbolic list")
                 elems = cont.items
             elif isinstance(cont, SetV):
                 elems = cont.items
             else:
                 elems = list(cont)
+            if isinstance(cont, dict) and isinstance(item, SStr) and B.is_big_str_table(cont):
+                has, _ = B.big_dict_fns(self, cont)
+                return has(item.z)
             if not isinstance(item, Sym) and not isinstance(item, (Obj, DictV, ListV, tuple)):
                 try:
                     if not any(isinstance(e, Sym) for e in elems):
@@ -194,6 +204,8 @@ class Interp(object):
         return self.lookup_global(name, frame.module)
 
     def lookup_global(self, name, module):
+        if module is not None and (module.name + "." + name) in self.global_overrides:
+            return self.global_overrides[module.name + "." + name]
         if module is not None:
             if name in module.functions:
                 return module.functions[name]
@@ -754,7 +766,13 @@ class Interp(object):
         pushed = []
         try:
             for i, e in enumerate(node.values):
-                v = self.eval(e, frame)
+                if pushed:
+                    try:
+                        v = self.eval(e, frame)
+                    except ScopeInfeasible:
+                        break       # the assumption under which this operand matters is false here
+                else:
+                    v = self.eval(e, frame)
                 t = self.truth(v)
                 if isinstance(t, bool):
                     if is_and and not t:
@@ -819,6 +837,9 @@ class Interp(object):
     def binop(self, op, a, b, node=None):
         return B.binop(self, op, a, b, node)
 
+    def binop_add(self, a, b):
+        return B.binop(self, ast.Add(), a, b, None)
+
     def ex_Compare(self, node, frame):
         left = self.eval(node.left, frame)
         parts = []
@@ -857,10 +878,23 @@ class Interp(object):
                 return self.eval(node.orelse, frame)
             if self.ctx.check(z3.Not(t))[0] == "unsat":
                 return self.eval(node.body, frame)
-            with self.ctx.temp_assume(t):
-                x = self.eval(node.body, frame)
-            with self.ctx.temp_assume(z3.Not(t)):
-                y = self.eval(node.orelse, frame)
+            x = y = NotImplemented
+            try:
+                with self.ctx.temp_assume(t):
+                    x = self.eval(node.body, frame)
+            except ScopeInfeasible:
+                pass
+            try:
+                with self.ctx.temp_assume(z3.Not(t)):
+                    y = self.eval(node.orelse, frame)
+            except ScopeInfeasible:
+                pass
+            if x is NotImplemented and y is NotImplemented:
+                raise ScopeInfeasible()
+            if x is NotImplemented:
+                return y
+            if y is NotImplemented:
+                return x
             r = B.ite(t, x, y)
             if r is not NotImplemented:
                 return r
